@@ -1133,6 +1133,12 @@ func gridLayout(context *layoutContext, box_ Box, bottomSpace pr.Float, skipStac
 							span := getSpan(columnStart)
 							x, width = getPlacement(columnStart, pr.GridLine{Val: x + 1 + span}, extractNames(columns)).unpack()
 						}
+						if x+width > implicitX2 {
+							// The item would overflow the columns of the implicit grid:
+							// no room in this row (implicitX2 - implicitX1 is at least its span,
+							// so it fits at the start of a free row).
+							break
+						}
 						intersect := intersectWithChildren(x, y, width, height, childrenPositions)
 						if intersect {
 							// Child intersects with a positioned child.
@@ -1246,6 +1252,12 @@ func gridLayout(context *layoutContext, box_ Box, bottomSpace pr.Float, skipStac
 							span := getSpan(columnStart)
 							x, width = getPlacement(columnStart, pr.GridLine{Val: x + 1 + span},
 								extractNames(columns)).unpack()
+						}
+						if x+width > implicitX2 {
+							// The item would overflow the columns of the implicit grid:
+							// no room in this row (implicitX2 - implicitX1 is at least its span,
+							// so it fits at the start of a free row).
+							break
 						}
 						intersect := intersectWithChildren(x, y, width, height, childrenPositions)
 						if intersect {
